@@ -442,7 +442,12 @@ pub fn run_case(
                     continue;
                 }
                 if !d.ensure(i) {
+                    // the limit of this profile (64) is never reached: a connection whose handler
+                    // does not start reading is a server that does not react — as with any other
+                    // missed deadline nothing after it is meaningful, and waiting again for every
+                    // further event only costs minutes
                     let _ = writeln!(obs, "NOT-SERVED {} {}", i, d.why);
+                    d.stuck += 1;
                     continue;
                 }
                 if d.conns[&i].closed {
